@@ -377,7 +377,10 @@ def _rels_digest(prs):
     return tuple(sorted(set(out)))
 
 
-def _query_calls(prs, obj, name):
+_ALIEN_KEEP = None
+
+
+def _query_calls(prs, obj, name, prs_init=None, alien_path=None):
     """The look-up methods of a collection proxy are part of 'reading': call `name` (encoded 'call:<method>:<variant>'
     plus, for the foreign variant, the access path of another collection of the same class) with members, with a
     member of a sibling collection and with absent keys. Exceptions (ValueError, KeyError, IndexError) are answers."""
@@ -389,7 +392,18 @@ def _query_calls(prs, obj, name):
         other_path = ast.literal_eval(enc)
     items = list(obj) if _iterable(type(obj)) else []
     foreign = list(follow(prs, other_path)) if other_path is not None else []
-    pool = {"own": items[:1] + items[-1:], "foreign": foreign[:1]}[variant] if variant in ("own", "foreign") else []
+    if variant == "alien":
+        # a member of the SAME collection of ANOTHER presentation open in this process (a second copy of the deck):
+        # asking whether it is here must not adopt it
+        global _ALIEN_KEEP
+        other_prs = F.open_prs(initial_blob(prs_init))
+        _ALIEN_KEEP = other_prs
+        try:
+            foreign = list(follow(other_prs, alien_path))[:1]
+        except Exception:  # noqa: BLE001
+            foreign = []
+    pool = {"own": items[:1] + items[-1:], "foreign": foreign[:1], "alien": foreign[:1]}[variant] \
+        if variant in ("own", "foreign", "alien") else []
 
     def attempt(fn, *a):
         try:
@@ -448,7 +462,7 @@ def isolated_call(init, clsname, path, name):
         if name == "__iter__":
             list(obj)
         elif name.startswith("call:"):
-            _query_calls(prs, obj, name)
+            _query_calls(prs, obj, name, init, path)
         else:
             getattr(obj, name)
     except Exception:  # noqa: BLE001
@@ -515,6 +529,8 @@ def isolation_items(inits, per_context=1):
                     items.append((init, clsname, path, "call:%s:plain" % meth))
                     continue
                 items.append((init, clsname, path, "call:%s:own" % meth))
+                if meth in ("index", "__contains__"):
+                    items.append((init, clsname, path, "call:%s:alien" % meth))
                 others = [p for p in by_cls.get(clsname, ()) if p != path]
                 if others:
                     items.append((init, clsname, path, "call:%s:foreign@%r" % (meth, others[0])))
